@@ -14,9 +14,10 @@ import model as M
 from gen import H, O
 from vlib import run_driver_parallel, coq_eval, warm_config, trace_to_coq, unhex, cb
 import fsmodel as F
+import dyn as D
 
 # the case files of this check import the monitors: keep them compiled against the current generated constants
-COQ_TARGETS = ("theories/Replay.vo", "theories/Discipline.vo", "theories/FdBalance.vo", "proofs/MonitorProofs.vo")
+COQ_TARGETS = ("theories/Replay.vo", "theories/Discipline.vo", "theories/FdBalance.vo", "proofs/MonitorProofs.vo", "theories/Dyn.vo")
 
 RES = 16 | 2
 
@@ -223,6 +224,7 @@ def run(ck):
     nontrivial = set()
     samples = []
     cases = []
+    dcases = []
     for deny in ((), ("openat2",)):
         tag = ",".join(deny) or "none"
         send = []
@@ -249,6 +251,12 @@ def run(ck):
                 ck.violation("C14: operation panicked", desc)
                 continue
             ok = "unit" in r or "ok" in r
+            # tie T2d: every answer of the running kernel to this operation's calls against the dynamic kernel model, and the
+            # resulting tree (successful and failed operations alike)
+            if res.get("trace") and rng.random() < (0.8 if thorough else 0.5):
+                dterm = D.case_term(job["tree"], res)
+                if dterm:
+                    dcases.append((len(dcases), dterm, desc, res))
             mainkey = "src" if op["k"] == "rename" else "path"
             pbytes = unhex(op[mainkey])
             par, name = split(pbytes)
@@ -438,7 +446,33 @@ def run(ck):
                 stats["t1_bad"] += 1
                 ck.violation("T1: model and implementation disagree on a single-entry operation",
                              {"job": J.describe(job), "deny": tag, "replay": rep, "real_outcome": res.get("res")}, False)
-    cov_extra = {"max_tree_changing_calls_in_a_replayed_trace": stats.get("max_effect_calls", 0), "effect_call_fault_runs": stats.get("effect_faults", 0), "effect_call_faults_misplaced": stats.get("effect_faults_misplaced", 0)}
+    # ---- T2d: the dynamic kernel model against the recorded executions
+    if not ck.proof_broken and dcases:
+        devals, derrs = coq_eval([(c[0], c[1]) for c in dcases], header=D.HEADER, tag="c14d")
+        if derrs:
+            ck.violation("T2d: Coq evaluation of the dynamic-kernel cases failed", {"log": derrs[0][-1500:]}, False)
+        for cid, term, desc, res in dcases:
+            got = devals.get(cid)
+            if got is None or len(got) < 4:
+                continue
+            bad, ncmp, left, mtree = D.decode(got)
+            stats["dyn_traces"] = stats.get("dyn_traces", 0) + 1
+            stats["dyn_calls"] = stats.get("dyn_calls", 0) + ncmp
+            if bad:
+                evs = [e for e in res["trace"] if e["c"] != "fcntl" or e.get("cmd") != 1]
+                ck.violation("T2d: the dynamic kernel model disagrees with the answer the running kernel gave to a call of a single-entry operation",
+                             dict(desc, call_index=bad - 1, around=evs[max(0, bad - 3):bad + 1]), False)
+            elif left:
+                stats["dyn_left_model"] = stats.get("dyn_left_model", 0) + 1
+            else:
+                rtree = D.real_dump(res.get("snap_after"))
+                stats["dyn_trees"] = stats.get("dyn_trees", 0) + 1
+                if mtree != rtree:
+                    ck.violation("T2d: after replaying the operation's calls the model's tree differs from the real tree",
+                                 dict(desc, only_in_model=sorted(str(x) for x in mtree - rtree)[:8], only_in_real=sorted(str(x) for x in rtree - mtree)[:8]), False)
+    cov_extra = {"max_tree_changing_calls_in_a_replayed_trace": stats.get("max_effect_calls", 0), "effect_call_fault_runs": stats.get("effect_faults", 0), "effect_call_faults_misplaced": stats.get("effect_faults_misplaced", 0),
+                 "dynamic_kernel_traces_validated": stats.get("dyn_traces", 0), "dynamic_kernel_calls_compared": stats.get("dyn_calls", 0),
+                 "dynamic_kernel_final_trees_compared": stats.get("dyn_trees", 0), "dynamic_kernel_traces_leaving_the_model": stats.get("dyn_left_model", 0)}
     cov = {
         "evaluations": stats["ops"],
         "distinct_nontrivial": len(nontrivial),
